@@ -558,8 +558,8 @@ def shrink_direct(images, effects, sig):
 
 
 def direct_observe(images, effects):
-    """what the real loader built, in the words of drv/C07.lean `direct`: the effect's parameters in order and, per property naming an
-    image, the position of its map's sampler among them (by object identity)"""
+    """what the real loader built, in the words of drv/C07.lean `direct`: the effect's parameters (sorted: their order is not the property's business)
+    and, per property naming an image, the first property whose map holds the same sampler object"""
     import collada
     from collada import material
     d = collada.Collada(io.BytesIO(direct_doc(images, effects)))
@@ -567,14 +567,16 @@ def direct_observe(images, effects):
     for eid, shader, props, bump in effects:
         e = d.effects[eid]
         # a made-up surface is named by the image it holds (its own id is the loader's choice: unique in the effect, checked by the oracle)
-        ps = ','.join('surf:%s-surface' % q.image.id if isinstance(q, material.Surface) else ('samp:' if isinstance(q, material.Sampler2D) else 'other:') + str(q.id)
-                      for q in e.params)
-        ms = []
+        ps = ','.join(sorted('surf:%s-surface' % q.image.id if isinstance(q, material.Surface) else ('samp:' if isinstance(q, material.Sampler2D) else 'other:') + str(q.id)
+                             for q in e.params))
+        ms, held = [], []
         for key, kind, im in props:
             if kind == 'tex':
                 v = getattr(e, key)
-                pos = [i for i, q in enumerate(e.params) if isinstance(v, material.Map) and q is v.sampler]
-                ms.append('%s:%s' % (key, pos[0] if pos else 'none'))
+                smp = v.sampler if isinstance(v, material.Map) else None
+                first = [k for k, q in held if q is smp and smp is not None]
+                ms.append('%s:%s' % (key, first[0] if first else (key if smp is not None else 'none')))
+                held.append((key, smp))
         out.append('params=%s maps=%s' % (ps, ','.join(ms)))
     return out
 
